@@ -7,8 +7,8 @@ INFO = {
                    "scalar class that, like np.float32 / 0-d jax arrays (what ml.train supplies), is not an instance of float.  Counterexamples "
                    "are replayed on the freshly imported real classes with genuine float / np.float32 / jax scalars.",
     "functions": ["TrainLoss.__init__", "TrainLoss.stop", "ValLoss.__init__", "ValLoss.stop", "EpochStop.stop", "StopCondition.__init__"],
-    "bounds": {"quick": "histories of length <=4, patience 0..3 (0..5 for the inductive step), 0<=min_delta<=8, losses in [0,100]; EpochStop epochs<=12; "
-                        "per-condition timeout 90 s", "thorough": "per-condition timeout 300 s"},
+    "bounds": {"quick": "histories of length <=3, patience 0..3 (0..5 for the inductive step, which covers any length), 0<=min_delta<=8, losses in [0,100]; "
+                        "EpochStop epochs<=12", "thorough": "histories of length <=4"},
     "outside": ["verbose logging (log_status formatting)", "the body of ml.train other than its call protocol (first call with None losses, then one call per epoch)"],
     "assumptions": ["non-float scalars modelled by a wrapper class + module-level float() stub returning the wrapped value "
                     "(validated by concrete differential runs with genuine np.float32 / jax scalars on every run)"],
